@@ -72,6 +72,10 @@ def _model_job(job):
     else:
         src = re.sub(r"^INVARIANTS .*$", PROPERTY_INVARIANTS, src, flags=re.M)
         src = re.sub(r"^PROPERTY .*\n", "", src, flags=re.M)
+    if mode == "strict":
+        # informational: the header contract of cancel_and_wait (stronger than C16) on the hang-up configuration
+        src = src.replace('Mut = "strict"', 'Mut = "none"')
+        src = re.sub(r"^INVARIANTS .*$", "INVARIANTS TypeOK CawStrict", src, flags=re.M)
     p = os.path.join(rundir(PROP), "mut_%s.cfg" % mut)
     open(p, "w").write(src)
     return job, _checked("mutant " + mut, "Cancel.tla", p, timeout=1200, workers=2, metaname="c16_mut_%s.%d" % (mut, os.getpid()),
@@ -81,7 +85,8 @@ def _model_job(job):
 def model(v, tier):
     cfgs = QUICK if tier == "quick" else THOROUGH
     jobs = [("base", c, None, None) for c in cfgs] + [("base", PINNED, None, None)] + \
-           [("mut", c, m, mode) for m, c, mode in (MUTANTS if tier == "quick" else MUTANTS + MUTANTS_T)]
+           [("mut", c, m, mode) for m, c, mode in (MUTANTS if tier == "quick" else MUTANTS + MUTANTS_T)] + \
+           ([("mut", "Cancel_caw_fd_t.cfg", "strict", "strict")] if tier != "quick" else [])
     with ThreadPoolExecutor(max_workers=6) as ex:
         results = list(ex.map(_model_job, jobs))
     for (kind, cfg, mut, mode), r in results:
@@ -99,6 +104,13 @@ def model(v, tier):
                              "yields the finalized-twice counterexample (%s / %s)" % (cfg, r.violated, _bad_of(r)))
             v.notes["deviation_HupFix_FALSE"] = {"config": cfg, "tlc_counterexample": "source_finalized_twice",
                                                  "distinct_states_to_counterexample": r.distinct}
+        elif mode == "strict":
+            v.notes["header_contract_of_cancel_and_wait"] = {
+                "config": cfg, "invariant": "CawStrict (no event handler running at, or starting after, the return)",
+                "tlc": ("counterexample found: after a hang-up has set DSF_DELETED, cancel_and_wait returns at once while the "
+                        "hang-up's event handler invocation is running / committed" if r.violated == "CawStrict"
+                        else "no counterexample (%s)" % r.violated),
+                "judged": "informational - C16 does not state it"}
         else:
             if not r.violated or r.violated == "TypeOK":
                 raise Broken("spec mutant %s not refuted in %s: the properties are vacuous in these bounds" % (mut, cfg))
